@@ -263,3 +263,82 @@ def R8(body, ctx):
     if '<' not in ctx['head']:
         ctx['head'] += '<Job>'  # the method of `impl<Job> JobBroker<Job>` becomes a free function
     return body, n
+
+
+def R5(body, ctx):
+    """`E.hash(S);` -> `feed(&E, S);` (prelude: the hasher's ghost stream grows by `enc(E)`).
+    E and S are re-emitted unchanged."""
+    mask = code_mask(body)
+    out, pos, n = [], 0, 0
+    for m in re.finditer(r'\.hash\(\s*', body):
+        if not mask[m.start()] or m.start() < pos:
+            continue
+        po = m.end() - 1
+        while body[po] != '(':
+            po -= 1
+        pc = match_close(body, po, mask)
+        arg = body[po + 1:pc].strip()
+        # receiver: back to the start of the statement
+        k = m.start()
+        while k > pos and body[k - 1] not in ';{}':
+            k -= 1
+        recv = body[k:m.start()].strip()
+        j = pc + 1
+        while j < len(body) and body[j] in ' \t\n':
+            j += 1
+        if not recv or j >= len(body) or body[j] != ';':
+            raise LostAnchor('R5: `.hash(..)` is not a statement of the form `E.hash(S);`')
+        out.append(body[pos:k])
+        out.append(' feed(&%s, %s);' % (recv, arg))
+        pos = j + 1
+        n += 1
+    out.append(body[pos:])
+    return ''.join(out), n
+
+
+def R5_eq(body, ctx):
+    """`A.eq(&B)` -> `field_eq(&A, &B)`; `A.eq(B)` (both already references, e.g. slices) -> `ref_eq(A, B)`
+    (prelude: structural equality of the two values, A-EQ). A and B are re-emitted unchanged."""
+    mask = code_mask(body)
+    n = 0
+    while True:
+        m = None
+        for mm in re.finditer(r'\.eq\(', body):
+            if mask[mm.start()]:
+                m = mm
+                break
+        if not m:
+            break
+        po = body.index('(', m.start())
+        pc = match_close(body, po, mask)
+        arg = body[po + 1:pc].strip()
+        # receiver: a postfix expression (identifiers, `.`, calls) ending at m.start()
+        k = m.start()
+        while k > 0:
+            c = body[k - 1]
+            if c.isalnum() or c in '_.':
+                k -= 1
+            elif c == ')':
+                depth, j = 0, k - 1
+                while j >= 0:
+                    if mask[j] and body[j] == ')':
+                        depth += 1
+                    elif mask[j] and body[j] == '(':
+                        depth -= 1
+                        if depth == 0:
+                            break
+                    j -= 1
+                k = j
+            else:
+                break
+        recv = body[k:m.start()]
+        if not recv:
+            raise LostAnchor('R5_eq: no receiver')
+        if arg.startswith('&'):
+            rep = 'field_eq(&%s, &%s)' % (recv, arg[1:].strip())
+        else:
+            rep = 'ref_eq(%s, %s)' % (recv, arg)
+        body = body[:k] + rep + body[pc + 1:]
+        mask = code_mask(body)
+        n += 1
+    return body, n
